@@ -82,6 +82,9 @@ var universe = []spec{
 	{name: "L1", k: kLock, target: "R1", exp: 6},
 	{name: "L1s", k: kLock, target: "R1", exp: 3},
 	{name: "L2", k: kLock, target: "C1"},
+	{name: "LC2", k: kLock, target: "C2"},
+	{name: "LP", k: kLock, target: "P"},
+	{name: "LPs", k: kLock, target: "P", exp: 3},
 	{name: "L3", k: kLock, target: "R2"},
 	{name: "L4", k: kLock, target: "R4", exp: 3},
 	{name: "L5", k: kLock, target: "R5", exp: 3},
@@ -109,7 +112,12 @@ var scenarios = []scenario{
 	{name: "dead-lock-then-tombstone", objs: []string{"R5", "R1", "L5", "T5", "T1"}, bump: map[int]uint64{3: 4}, epochs: []uint64{4, 6}},
 	{name: "two-locks-one-target", objs: []string{"R1", "R2", "L1s", "L1", "T3"}, epochs: []uint64{0, 3, 5, 7}},
 	{name: "mixed-7", objs: []string{"R1", "R2", "C1", "C2", "L1", "T3", "T2"}, epochs: []uint64{0, 3, 5}, tier: 1},
-	{name: "split-v2-locked-child-tombstoned-parent", objs: []string{"C1", "C2", "K", "L2", "T2"}, epochs: []uint64{0}, tier: 1},
+	// {lock on a child, lock on the parent} x {tombstone on the parent}: which of lock / tombstone is stored is
+	// decided by the metabase per arrival order (e.g. tombstone first, lock on the garbage-marked first child after it)
+	{name: "split-v2-locked-first-child-tombstoned-parent", objs: []string{"C1", "C2", "K", "L2", "T2"}, epochs: []uint64{0}},
+	{name: "split-v2-locked-last-child-tombstoned-parent", objs: []string{"C1", "C2", "K", "LC2", "T2"}, epochs: []uint64{0}},
+	{name: "split-v2-locked-parent-tombstoned-parent", objs: []string{"C1", "C2", "K", "LP", "T2"}, epochs: []uint64{0}},
+	{name: "split-v2-dead-lock-on-parent-then-tombstone", objs: []string{"C1", "C2", "K", "LPs", "T2"}, bump: map[int]uint64{4: 4}, epochs: []uint64{4, 6}},
 }
 
 type uobj struct {
